@@ -97,6 +97,21 @@ theorem verifyCertificate_ok_iff (K : Crypto) (p : Pool) (t : Int) (c : Cert) (c
           · simp [h2, hb]
           · simp [h2, hb, hv]; exact eq_comm
 
+/-- `VerifyCertificate` returns a cached certificate iff the trust rule holds (restated as C01 `accept_iff`). -/
+theorem accept_iff (K : Crypto) (p : Pool) (t : Int) (c : Cert) :
+    (∃ cc, p.verifyCertificate K t c = .ok cc) ↔ trusted K p t c := by
+  unfold trusted notBlocked
+  constructor
+  · rintro ⟨cc, h⟩
+    obtain ⟨fp, fp2, hf, ha, hv, hb2, -⟩ := (verifyCertificate_ok_iff K p t c cc).mp h
+    obtain ⟨hb, hi, -, ca, hl, hc, he1, he2, hs, hk⟩ := (verify_full_ok_iff K p c t fp c.issuer).mp hv
+    exact ⟨⟨fp, hf, hb, fp2, ha, hb2⟩, hi, ca, hl, hc, (expired_false_iff ca t).mp he1,
+      (expired_false_iff c t).mp he2, hs, (checkCA_none_iff ca c).mp hk⟩
+  · rintro ⟨⟨fp, hf, hb, fp2, ha, hb2⟩, hi, ca, hl, hc, hv1, hv2, hs, hw⟩
+    refine ⟨_, (verifyCertificate_ok_iff K p t c _).mpr ⟨fp, fp2, hf, ha, ?_, hb2, rfl⟩⟩
+    exact (verify_full_ok_iff K p c t fp c.issuer).mpr ⟨hb, hi, rfl, ca, hl, hc,
+      (expired_false_iff ca t).mpr hv1, (expired_false_iff c t).mpr hv2, hs, (checkCA_none_iff ca c).mpr hw⟩
+
 theorem lookup_mapSet_self (k : String) (v : Cert) (m : List (String × Cert)) :
     (mapSet k v m).lookup k = some v := by
   simp [mapSet, List.lookup]
